@@ -7,7 +7,7 @@
 
 use crate::{catch, f32s, next_down, next_up, Cfg, Hasher, Json, Report, Rng};
 use re::render::tex::{uv, SamplerClamp, SamplerOnce, SamplerRepeatPot, Texture};
-use re::util::buf::{AsSlice2, Buf2};
+use re::util::buf::{AsSlice2, Buf2, Slice2};
 
 const POISON: u32 = 0xFFFF_FFFF;
 
@@ -70,12 +70,12 @@ fn floor_exact(x: f32) -> Option<i128> {
     Some((x as f64).floor() as i128)
 }
 
+/// What is demanded of the returned texel, per axis: Some(i) = exactly
+/// column/row i; None = only "no panic, inside the texture" (NaN, infinite
+/// or ≥ 2^31 coordinate on that axis). A special value on one axis does not
+/// excuse the other.
 #[derive(Clone, Copy, PartialEq, Debug)]
-enum Expect {
-    Texel(u32, u32),
-    /// Only "no panic, some in-range texel" is demanded.
-    AnyInRange,
-}
+struct Expect(Option<u32>, Option<u32>);
 
 fn expect_repeat(c: f32, size: u32) -> Option<u32> {
     let f = floor_exact(c)?;
@@ -119,15 +119,16 @@ fn judge(
                 );
                 return;
             }
-            if let Expect::Texel(x, y) = exp {
-                let (gx, gy) = (t & 0xFFFF, t >> 16);
-                if (gx, gy) != (x, y) {
-                    rep.violation(
-                        &format!("tex.{what}.wrong_texel"),
-                        format!("{what}: got texel ({gx},{gy}), expected ({x},{y})"),
-                        case(),
-                    );
-                }
+            let (gx, gy) = (t & 0xFFFF, t >> 16);
+            if exp.0.is_some_and(|x| x != gx) || exp.1.is_some_and(|y| y != gy) {
+                rep.violation(
+                    &format!("tex.{what}.wrong_texel"),
+                    format!("{what}: got texel ({gx},{gy}), expected ({}, {})", exp.0.map_or("any".into(), |x| x.to_string()), exp.1.map_or("any".into(), |y| y.to_string())),
+                    case(),
+                );
+            }
+            if exp.0.is_some() != exp.1.is_some() {
+                rep.count("coord.one_axis_special_other_judged");
             }
         }
     }
@@ -153,16 +154,14 @@ fn probe<D: AsSlice2<u32>>(rep: &mut Report, tex: &Texture<D>, w: u32, h: u32, p
     // --- repeat sampler (power-of-two sizes only)
     if pot {
         let s = match catch(|| SamplerRepeatPot::new(tex)) {
-            Ok(s) => s,
+            Ok(s) => Some(s),
             Err(m) => {
                 rep.violation("tex.repeat.new_panic", format!("SamplerRepeatPot::new panicked on a power-of-two texture: {m}"), case());
-                return;
+                None
             }
         };
-        let exp = match (expect_repeat(u, w), expect_repeat(v, h)) {
-            (Some(x), Some(y)) => Expect::Texel(x, y),
-            _ => Expect::AnyInRange,
-        };
+        if let Some(s) = s {
+        let exp = Expect(expect_repeat(u, w), expect_repeat(v, h));
         let got = catch(|| s.sample_abs(tex, uv(u, v)));
         judge(rep, "repeat.sample_abs", got.clone(), exp, w, h, case);
         rep.count("op.repeat.sample_abs");
@@ -180,20 +179,15 @@ fn probe<D: AsSlice2<u32>>(rep: &mut Report, tex: &Texture<D>, w: u32, h: u32, p
                 case(),
             ),
         }
-        let exp_rel = match (expect_repeat(su, w), expect_repeat(sv, h)) {
-            (Some(x), Some(y)) => Expect::Texel(x, y),
-            _ => Expect::AnyInRange,
-        };
+        let exp_rel = Expect(expect_repeat(su, w), expect_repeat(sv, h));
         judge(rep, "repeat.sample", rel, exp_rel, w, h, case);
+        }
     }
 
     // --- clamp sampler
     {
         let s = SamplerClamp;
-        let exp = match (expect_clamp(u, w), expect_clamp(v, h)) {
-            (Some(x), Some(y)) => Expect::Texel(x, y),
-            _ => Expect::AnyInRange,
-        };
+        let exp = Expect(expect_clamp(u, w), expect_clamp(v, h));
         let got = catch(|| s.sample_abs(tex, uv(u, v)));
         judge(rep, "clamp.sample_abs", got, exp, w, h, case);
         rep.count("op.clamp.sample_abs");
@@ -210,24 +204,21 @@ fn probe<D: AsSlice2<u32>>(rep: &mut Report, tex: &Texture<D>, w: u32, h: u32, p
                 case(),
             ),
         }
-        let exp_rel = match (expect_clamp(su, w), expect_clamp(sv, h)) {
-            (Some(x), Some(y)) => Expect::Texel(x, y),
-            _ => Expect::AnyInRange,
-        };
+        let exp_rel = Expect(expect_clamp(su, w), expect_clamp(sv, h));
         judge(rep, "clamp.sample", rel, exp_rel, w, h, case);
     }
 
     // --- unchecked sampler: only for in-range coordinates
     let in_range = |c: f32, n: u32| c >= 0.0 && (c as f64) < n as f64;
     if in_range(u, w) && in_range(v, h) {
-        let exp = Expect::Texel((u as f64).floor() as u32, (v as f64).floor() as u32);
+        let exp = Expect(Some((u as f64).floor() as u32), Some((v as f64).floor() as u32));
         let got = catch(|| SamplerOnce.sample_abs(tex, uv(u, v)));
         judge(rep, "once.sample_abs", got, exp, w, h, case);
         rep.count("op.once.sample_abs");
     }
     let (su, sv) = (w as f32 * u, h as f32 * v);
     if in_range(su, w) && in_range(sv, h) && u >= 0.0 && v >= 0.0 {
-        let exp = Expect::Texel((su as f64).floor() as u32, (sv as f64).floor() as u32);
+        let exp = Expect(Some((su as f64).floor() as u32), Some((sv as f64).floor() as u32));
         let got = catch(|| SamplerOnce.sample(tex, uv(u, v)));
         judge(rep, "once.sample", got, exp, w, h, case);
         rep.count("op.once.sample");
@@ -243,9 +234,28 @@ fn probe_both(rep: &mut Report, w: u32, h: u32, rng: &mut Rng, u: f32, v: f32) {
     let (ox, oy) = (rng.below(4) as u32, rng.below(4) as u32);
     let (pr, pb) = (rng.below(4) as u32, rng.below(4) as u32);
     let parent = make_parent(w, h, ox, oy, pr, pb);
-    let sub = parent.slice((ox..ox + w, oy..oy + h));
-    let tex = Texture::from(sub);
-    probe(rep, &tex, w, h, pot, u, v, "borrowed");
+    match rng.below(3) {
+        0 => {
+            let sub = parent.slice((ox..ox + w, oy..oy + h));
+            probe(rep, &Texture::from(sub), w, h, pot, u, v, "borrowed");
+        }
+        1 => {
+            // a window of a window
+            let outer = parent.slice((ox.., oy..));
+            let sub = outer.slice((0..w, 0..h));
+            rep.count("kind.borrowed.slice_of_slice");
+            probe(rep, &Texture::from(sub), w, h, pot, u, v, "borrowed (slice of slice)");
+        }
+        _ => {
+            // Slice2::new over raw data: stride ≥ width, surplus poisoned tail
+            let stride = w + rng.below(40) as u32;
+            let len = ((h - 1) * stride + w) as usize + rng.below(5) as usize;
+            let data: Vec<u32> = (0..len as u32).map(|i| if i % stride < w && i / stride < h { ((i / stride) << 16) | (i % stride) } else { POISON }).collect();
+            let sub = Slice2::new((w, h), stride, &data[..]);
+            rep.count("kind.borrowed.Slice2::new(strided)");
+            probe(rep, &Texture::from(sub), w, h, pot, u, v, "borrowed (Slice2::new, strided)");
+        }
+    }
 }
 
 pub fn run(cfg: &Cfg, rep: &mut Report) {
@@ -253,6 +263,8 @@ pub fn run(cfg: &Cfg, rep: &mut Report) {
 (every integer -70..70 ± 1 ulp, k+1/2, ±2^k ± 1 ulp up to 2^33, extremes, ±inf, NaN, subnormals) crossed with all \
 texture sizes, plus random pairs; all are non-trivial; distinct by hash of (size, kind, u bits, v bits)"
         .into();
+    rep.assumptions.push("texture sides up to 4097 are driven; sides of 2^24 and more, where the f32 the samplers keep for the size is no longer exact, are taken to be outside 'all texture sizes' (65535 is also the limit of the 16+16-bit texel identity used here)".into());
+    rep.assumptions.push("the relative entry points are compared with the absolute ones at the coordinate scaled by one f32 multiplication, which is how the library documents them".into());
     rep.assumptions.push("texel identity is observed through texels that store their own coordinates; out-of-region texels of borrowed textures hold a poison value".into());
     let pal = palette();
     let np = pal.len() as u64;
@@ -307,16 +319,53 @@ texture sizes, plus random pairs; all are non-trivial; distinct by hash of (size
             6 => rng.pick(&pal),
             _ => rng.f32_in(0.0, 1.0),
         };
-        let (u, v) = (c(rng), c(rng));
+        let (mut u, mut v) = (c(rng), c(rng));
+        // texel boundaries in *relative* coordinates: k/size and both f32
+        // neighbours, a few repeats around the unit square
+        if rng.chance(1, 4) {
+            let k = rng.int(-2 * w as i64, 2 * w as i64) as f32 / w as f32;
+            u = rng.ulp_nudge(k);
+            rep.count("coord.relative_texel_boundary");
+        }
+        if rng.chance(1, 4) {
+            let k = rng.int(-2 * h as i64, 2 * h as i64) as f32 / h as f32;
+            v = rng.ulp_nudge(k);
+        }
         probe_both(rep, w, h, rng, u, v);
     });
 
-    rep.floor("op.repeat.sample_abs", 1000);
-    rep.floor("op.clamp.sample_abs", 1000);
-    rep.floor("op.once.sample_abs", 1000);
-    rep.floor("op.once.sample", 500);
-    rep.floor("coord.special_or_huge", 500);
-    rep.floor("coord.negative", 1000);
+    // Stream 2: the repeating sampler on larger power-of-two textures and
+    // non-power-of-two sizes beyond a byte, with coordinates up to 2^31
+    let big_sizes: Vec<(u32, u32)> = vec![(256, 1), (256, 2), (1024, 4), (4096, 1), (4096, 2), (1, 4096), (2, 1024), (512, 512), (255, 1), (257, 3), (1000, 1), (4097, 3), (3, 1000), (1, 257), (640, 480)];
+    rep.run_stream(cfg, 2, "larger_textures", cfg.n(60_000, 6_000_000), |rng, _i, rep| {
+        let (w, h) = big_sizes[rng.usize(big_sizes.len())];
+        let mut c = |rng: &mut Rng, n: u32| match rng.below(8) {
+            0 => rng.sign() * rng.log_f32(1048576.0, 2147483648.0),
+            1 => {
+                // odd integers and their neighbours: the low bits survive the mask
+                let k = (rng.int(-(1 << 23), 1 << 23) | 1) as f32;
+                rng.ulp_nudge(k)
+            }
+            2 => {
+                let k = rng.int(-2 * n as i64, 2 * n as i64) as f32;
+                rng.ulp_nudge(k)
+            }
+            3 => {
+                let k = rng.int(-2 * n as i64, 2 * n as i64) as f32 / n as f32;
+                rng.ulp_nudge(k)
+            }
+            4 => rng.f32_in(-2.0 * n as f32, 3.0 * n as f32),
+            5 => rng.pick(&pal),
+            _ => rng.f32_in(-1.0, 2.0),
+        };
+        let (u, v) = (c(rng, w), c(rng, h));
+        rep.count("larger_textures.cases");
+        probe_both(rep, w, h, rng, u, v);
+    });
+
+    for (k, n) in [("op.repeat.sample_abs", 200_000), ("op.repeat.sample", 200_000), ("op.clamp.sample_abs", 1_000_000), ("op.clamp.sample", 1_000_000), ("op.once.sample_abs", 100_000), ("op.once.sample", 20_000), ("coord.special_or_huge", 100_000), ("coord.negative", 500_000), ("coord.one_axis_special_other_judged", 50_000), ("coord.relative_texel_boundary", 50_000), ("kind.borrowed.slice_of_slice", 100_000), ("kind.borrowed.Slice2::new(strided)", 100_000), ("larger_textures.cases", 30_000)] {
+        rep.floor(k, n);
+    }
 }
 
 /// Reduced workload for Miri: `n` coordinate pairs on small textures.
